@@ -493,3 +493,16 @@ func stmtStr(s ast.Stmt) string {
 	printer.Fprint(&buf, token.NewFileSet(), s)
 	return buf.String()
 }
+
+// boolCutAny: both edges of an If whose condition (under negations) matches:
+// Guarded with this cut asks whether such a test dominates the target.
+func boolCutAny(match func(n *core.Node, v ssa.Value) bool) EdgeCut {
+	return func(n *core.Node, i int) bool {
+		ifi, ok := n.Instr.(*ssa.If)
+		if !ok {
+			return false
+		}
+		v, _ := stripNot(ifi.Cond)
+		return match(n, v)
+	}
+}
